@@ -54,7 +54,7 @@ re-verified on the unchanged tree over several `VERIF_SEED` values):
 
 `./selftest regressions` re-introduces each of the repaired defects alone (reverse patch on a scratch copy) and
 requires the owning check to report it again: all re-found in the quick tier. `./selftest sensitivity` applies a
-catalogue of 49 hand-written one-place mutants plus one behaviour-preserving control edit (which must stay quiet): all as expected (one mutant of the first catalogue was replaced and one re-qualified after
+catalogue of 48 hand-written one-place mutants (all caught) and 14 behaviour-preserving control edits of internal names, numbering and enumeration order (all quiet) (one mutant of the first catalogue was replaced and one re-qualified after
 analysis: keeping useless duplication rules cannot change emptiness (equivalent), and the
 inverted chart-subsumption filter is invisible on flat structures without re-entrancy but caught once one variable
 links two features -- the workload extension that also found defect FX-31). `./selftest determinism`: for every property and three `VERIF_SEED` values the per-hash-seed event
